@@ -415,7 +415,7 @@ type hdrRec struct {
 }
 
 func skipFrameVar(name string) bool {
-	return strings.HasPrefix(name, "snap.") || strings.HasPrefix(name, "$defer.") || strings.HasPrefix(name, "$it.") || name == "$nxt" || name == "$held"
+	return strings.HasPrefix(name, "snap.") || strings.HasPrefix(name, "$defer.") || strings.HasPrefix(name, "$it.") || strings.HasPrefix(name, "L.") || name == "$nxt" || name == "$held"
 }
 
 // frameTerm: newT agrees with oldT on every pre-existing location that is not excluded.
